@@ -148,6 +148,10 @@ def _interact_harness(c, mode, k=2):
         key = it.call(it.get_global(TR, "Key"), ["attr", "y"], {})
     else:
         key = it.call(it.get_global(TR, "Key"), ["index", "k"], {})
+    # shape: a keyed (attribute / item) interaction always carries a real value -- the transformer only emits the ABSENT marker
+    # for declarations of plain names (clause visit_AnnAssign/declared-attribute-left-untouched)
+    if key is not None:
+        c.require(value.t != Val.absent)
     varname = "x"
     full = varname if key is None else it.call(it.getattr(key, "affix_to"), [varname], {})
     c.prove("affix/attr-index-naming", full == {0: "x", 1: "x.y", 2: "x['k']"}[kc])
